@@ -21,7 +21,7 @@ theorem parse_init_consumes {ps ps1 : PState} {s rest : Bytes} (hi : ps.st = .in
     rw [heq] at hp
     simp only at hp
     have hl := splitCRLF_length heq
-    cases hsl : parseStartLine line with
+    cases hsl : startLineLit s (after.length + 2) with
     | none =>
       rw [hsl] at hp
       simp at hp
